@@ -134,6 +134,25 @@ def gen_cases(tier: str, seed: int) -> list[dict[str, Any]]:
                     dict()][(i // 4) % 4])
         cases.append({'cfg': cfg, 'hist_name': h, 'history': hist,
                       'seed': seed * 1000 + i})
+    # marathons: many iterations on worlds whose gradient-worker columns own
+    # different numbers of layers (per-rank operation counts drift apart)
+    longs = [dict(W=4, k=2, method='eigen', prediv=True, bucket_cap_mb=25.0,
+                  symmetry=False, in_hook=True, colocate=True, F=1, I=1,
+                  accum=1, model='mlp3', ddp=True)]
+    if tier != 'quick':
+        longs += [dict(W=4, k=2, method='inverse', prediv=False,
+                       bucket_cap_mb=25.0, symmetry=True, in_hook=False,
+                       colocate=True, F=1, I=2, accum=1, model='mlp3',
+                       ddp=False),
+                  dict(W=6, k=2, method='eigen', prediv=False,
+                       bucket_cap_mb=0.00004, symmetry=False, in_hook=True,
+                       colocate=False, F=1, I=1, accum=1, model='mlp4',
+                       ddp=True)]
+    n_it = 90 if tier == 'quick' else 260
+    for j, c in enumerate(longs):
+        cases.append({'cfg': c, 'hist_name': 'marathon',
+                      'history': [['train', 1], ['step']] * n_it,
+                      'seed': seed * 1000 + 900 + j, 'long': True})
     return cases
 
 
@@ -171,7 +190,10 @@ def run_case(case: dict[str, Any]) -> dict[str, Any]:
     groups0 = None
     nexec = 0
     nevents = 0
-    for pol in policies(cfg.W, case['seed']):
+    pols = policies(cfg.W, case['seed'])
+    if case.get('long'):
+        pols = pols[:2]
+    for pol in pols:
         res = kaisa.run(cfg, case['history'], pol, seed=case['seed'])
         nexec += 1
         nevents += len(res.events)
@@ -288,8 +310,9 @@ def main(tier: str, seed: int) -> int:
     # ---- TLC over extracted programs -------------------------------------
     uniq: dict[str, dict] = {}
     for o in outs:
-        if o['proglen'] == 0:
-            continue
+        if o['proglen'] == 0 or o['case'].get('long'):
+            continue      # marathons: run-time monitors only (programs too
+            # long for the exhaustive interleaving models)
         uniq.setdefault(chash([o['programs'], o['groups']]), o)
     ulist = sorted(uniq.values(), key=lambda o: o['proglen'])
     jobs: list[tuple[dict, str]] = []
